@@ -105,7 +105,7 @@ func (k *KVStore) Compaction() (bool, error) {
 				if len(k.tables) == 1 {
 					break
 				}
-				delete(k.tablesByCoefficient, t.Coefficient())
+				// A recycled table has no coefficient, evictTable unregistered it.
 				k.tables = append(k.tables[:i], k.tables[i+1:]...)
 				i--
 			}
